@@ -892,6 +892,15 @@ impl SimRing {
         out
     }
 
+    /// Entries offered in every registered group (drivers with one pool).
+    pub fn offered_buffers_all(&self) -> Vec<abi::Buf> {
+        let mut out = Vec::new();
+        for p in &self.pbufs {
+            out.extend(self.offered_buffers(p.bgid));
+        }
+        out
+    }
+
     /// Allocate a direct descriptor slot.
     pub fn alloc_direct(&mut self) -> Option<u32> {
         let idx = self.files.iter().position(Option::is_none)?;
